@@ -18,7 +18,7 @@ ASSUMPTIONS = ['oracle: the returned rotation maps both unit references onto bot
                'reference vectors and directions per estimator are those in mc/ref/filters.py (documentation of each class); OLEQ start vector: '
                'np.random.random is an owned seam returning each vector of a fixed menu',
                'OLEQ: tolerance max(1e-6, 1e-7 rho/(1-rho)) with rho the documented contraction ratio of its fixed-point iteration (stopping test 1e-8 on successive iterates)', 'accelerometer-only variants are judged on the gravity direction only']
-REQUIRED_CLASSES = ['S', 'Gp', 'int-samples', 'weights-option', 'default-references', 'option-spellings', 'batch-rows:per-row-magnitudes', 'tilt-only', 'pose:level', 'pose:inverted', 'pose:vertical', 'pose:half-turn']
+REQUIRED_CLASSES = ['S', 'Gp', 'int-samples', 'weights-option', 'default-references', 'references-reassigned', 'option-spellings', 'batch-rows:per-row-magnitudes', 'tilt-only', 'pose:level', 'pose:inverted', 'pose:vertical', 'pose:half-turn']
 DIPS_Q = [-45.0, 0.0, 60.0]
 DIPS_T = [-80.0, -45.0, -10.0, 0.0, 1e-9, 10.0, 45.0, 60.0, 80.0]
 SCAL_Q = [(1.0, 1.0), (9.81, 45.0)]
@@ -405,6 +405,29 @@ def job_default_refs(ctx, k):
                     good = rq.so3_defect(Ro) <= 1e-9 and float(np.abs(Ro @ u1 - a / 9.81).max()) <= 1e-6 and float(np.abs(Ro @ u2 - m / 45.0).max()) <= 1e-6
                     ctx.expect(good, f'TRIAD[{rep}] with v1, v2 omitted: a proper rotation that maps its default references onto the measurements', f'{key} route={nm}', o, 'A v = w', 1e-6)
             ctx.seen(('default-refs', 'TRIAD', frame, lab))
+    # TRIAD: the public reference attributes v1 / v2 assigned on a LIVE object (after it has estimated with other references): the object follows
+    # its current attributes - the answer of a fresh object built with those references
+    vA1, vA2 = np.array([0.0, 0.0, 1.0]), np.array([rf.cd(60.0), 0.0, rf.sd(60.0)])
+    vB1, vB2 = np.array([0.0, 0.0, -1.0]), np.array([0.0, rf.cd(-35.0), -rf.sd(-35.0)])
+    for lab, q in atts[:6]:
+        Rt = rq.R(q)
+        a = Rt @ vB1 * 9.81; m = Rt @ vB2 * 45.0
+        for rep in ('rotmat', 'quaternion'):
+            for used_first in (True, False):
+                key = f'TRIAD att={lab} representation={rep} estimated with other references first={used_first}'
+                try:
+                    t = F.TRIAD(v1=vA1.copy(), v2=vA2.copy())
+                    if used_first:
+                        t.estimate((Rt @ vA1 * 9.81).copy(), (Rt @ vA2 * 45.0).copy(), representation=rep)
+                    t.v1, t.v2 = vB1.copy(), vB2.copy()
+                    got = np.asarray(t.estimate(a.copy(), m.copy(), representation=rep), float)
+                    exp = np.asarray(F.TRIAD(v1=vB1.copy(), v2=vB2.copy()).estimate(a.copy(), m.copy(), representation=rep), float)
+                except Exception as ex:
+                    ctx.fail('TRIAD with v1 / v2 assigned on the object raises', key, f'{type(ex).__name__}: {ex}'[:160], 'an attitude'); continue
+                ctx.close(got, exp, 1e-12, 'TRIAD.estimate follows the v1 / v2 currently assigned on the object (= a fresh object built with them)', key)
+                Ro = got if rep == 'rotmat' else rq.R(rq.qunit(got))
+                ctx.expect(float(np.abs(Ro @ vB1 - a / 9.81).max()) <= 1e-9 and float(np.abs(Ro @ vB2 - m / 45.0).max()) <= 1e-9, 'TRIAD with re-assigned references maps THOSE references onto the measurements', key, got, 'A v = w', 1e-9)
+    ctx.cls('references-reassigned')
     # FQA: magnetic reference omitted
     f0 = F.FQA()
     mr = np.asarray(f0.m_ref, float)
